@@ -1,6 +1,7 @@
 import Dia.ClientPolite
 import Dia.ClientWire
 import Dia.ClientEmbed
+import Dia.EndToEnd
 /-! # C11 - Client delivers each answer to the request it belongs to. Property theorems only.
 The client is the labelled transition system of `Dia/Client.lean`; a *run* is any list of labels, i.e. any
 interleaving of the sender, the reader task and an arbitrary peer, at the granularity of the code's critical
@@ -57,6 +58,78 @@ theorem C11_segmentation_irrelevant (cfg : Dia.Cfg) (dict : Dia.Lookup) (frames 
   have h1 := Dia.itemsOf_frames cfg dict frames msgs evs more hl hacc hne hflat
   have h2 := Dia.itemsOf_frames cfg dict frames msgs evs2 more hl hacc hne2 hflat2
   exact ⟨h1, by rw [h1, h2]⟩
+
+/-- **server and client put together (octets).** What the server's per-connection loop writes - reading acceptable
+requests in any segmentation, answering with the handler's (consistent, typed, at most 1 MiB) answers over a stream that takes
+octets in arbitrary pieces - is, for a client reading those octets in any pieces, exactly the handler's answers in order; and
+the handler was called with exactly the requests. (`Dia/EndToEnd.lean`: C08_all_good, C02_roundtrip and C06_read_all composed.) -/
+theorem C11_server_to_client (cfg : Dia.Cfg) (hf : cfg.tables.Fit) (dict : Dia.Lookup) (frames : List Dia.Bytes)
+    (reqs answers : List Dia.Msg) (evs : List Dia.REv) (w : List Dia.WEv) (evsC : List Dia.REv) (more : Dia.Bytes)
+    (hl1 : frames.length = reqs.length) (hl2 : answers.length = reqs.length)
+    (hacc : ∀ i (h1 : i < frames.length) (h2 : i < reqs.length), Dia.Accepts cfg dict frames[i] reqs[i])
+    (hans : ∀ a ∈ answers, a.Good ∧ a.HeaderOk cfg.tables ∧ Dia.TypedList dict a.avps ∧ a.length ≤ 1048576 ∧
+      Dia.depthList a.avps ≤ cfg.limit)
+    (hne : Dia.noEmpty evs) (hflat : Dia.flat evs = frames.flatten) (hw : Dia.neverFails w)
+    (hneC : Dia.noEmpty evsC)
+    (hflatC : Dia.flat evsC = (Dia.serve cfg dict (answers.map .ok) evs w).written ++ more) :
+    (Dia.serve cfg dict (answers.map .ok) evs w).calls = reqs ∧
+    Dia.itemsOf cfg dict answers.length evsC = answers.map Dia.Msg.item :=
+  Dia.server_to_client cfg hf dict frames reqs answers evs w evsC more hl1 hl2 hacc hans hne hflat hw hneC hflatC
+
+/-- **end to end.** ... and in any polite run of the client whose peer is that server - the messages the peer emitted include
+what the stream carries - once the reader has nothing left to process, every answer the handler gave sits in the future of the
+request with that answer's hop-by-hop id: whatever the segmentation on either side and whatever the interleaving of the
+client's sender and reader. -/
+theorem C11_end_to_end (cfg : Dia.Cfg) (hf : cfg.tables.Fit) (dict : Dia.Lookup) (frames : List Dia.Bytes)
+    (reqs answers : List Dia.Msg) (evs : List Dia.REv) (w : List Dia.WEv) (evsC : List Dia.REv) (more : Dia.Bytes)
+    (hl1 : frames.length = reqs.length) (hl2 : answers.length = reqs.length)
+    (hacc : ∀ i (h1 : i < frames.length) (h2 : i < reqs.length), Dia.Accepts cfg dict frames[i] reqs[i])
+    (hans : ∀ a ∈ answers, a.Good ∧ a.HeaderOk cfg.tables ∧ Dia.TypedList dict a.avps ∧ a.length ≤ 1048576 ∧
+      Dia.depthList a.avps ≤ cfg.limit)
+    (hne : Dia.noEmpty evs) (hflat : Dia.flat evs = frames.flatten) (hw : Dia.neverFails w)
+    (hneC : Dia.noEmpty evsC)
+    (hflatC : Dia.flat evsC = (Dia.serve cfg dict (answers.map .ok) evs w).written ++ more)
+    (ls : List Label) (s : St) (hs : Hist) (hp : politeRun init {} ls) (h : runP init {} ls = some (s, hs))
+    (hemit : ∀ m, Item.msg m ∈ Dia.itemsOf cfg dict answers.length evsC → m ∈ s.emitted)
+    (hwire : s.wire = []) (hr : s.reader = .running) :
+    ∀ a ∈ answers, ∃ wt, wt < s.nW ∧ s.hbhOf wt = a.hbh.toNat ∧ s.status wt = .got ⟨a.hbh.toNat, a.e2e.toNat⟩ := by
+  intro a ha
+  have hitems := (C11_server_to_client cfg hf dict frames reqs answers evs w evsC more hl1 hl2 hacc hans hne hflat hw
+    hneC hflatC).2
+  have hmem : Item.msg ⟨a.hbh.toNat, a.e2e.toNat⟩ ∈ Dia.itemsOf cfg dict answers.length evsC := by
+    rw [hitems]
+    exact List.mem_map.mpr ⟨a, ha, rfl⟩
+  exact C11_delivery ls s hs hp h hwire hr ⟨a.hbh.toNat, a.e2e.toNat⟩ (hemit _ hmem)
+
+/-- non-vacuity of the hypotheses about the server side: the header-only request of `Dia/Examples.lean`, answered by a
+message of the same shape, read in two pieces, written one octet at a time - the client reader gets exactly that answer -/
+example : Dia.itemsOf Dia.exCfg Dia.exDictNone 1
+    [.data ((Dia.serve Dia.exCfg Dia.exDictNone [.ok Dia.exFrameMsg] [.data (Dia.exFrame.take 7), .pending, .data (Dia.exFrame.drop 7)]
+      [.accept 1, .pending, .accept 1]).written)] = [Dia.exFrameMsg.item] := by
+  have h := (C11_server_to_client Dia.exCfg Dia.defaultTables_fit Dia.exDictNone [Dia.exFrame] [Dia.exFrameMsg] [Dia.exFrameMsg]
+    [.data (Dia.exFrame.take 7), .pending, .data (Dia.exFrame.drop 7)] [.accept 1, .pending, .accept 1]
+    [.data ((Dia.serve Dia.exCfg Dia.exDictNone [.ok Dia.exFrameMsg] [.data (Dia.exFrame.take 7), .pending, .data (Dia.exFrame.drop 7)]
+      [.accept 1, .pending, .accept 1]).written)] [] rfl rfl
+    (fun i h1 h2 => by
+      have : i = 0 := by simp at h1; omega
+      subst this; exact Dia.exFrame_accepts)
+    (fun a ha => by
+      simp at ha; subst ha
+      exact ⟨⟨trivial, trivial, rfl⟩, ⟨by decide, by decide⟩, trivial, by decide, by decide⟩)
+    (by simp [Dia.noEmpty, Dia.exFrame]) (by decide) (by intro e he; simp at he; rcases he with rfl | rfl | rfl <;> simp [Dia.WEv.good]) ?_ (by simp [Dia.flat])).2
+  · simpa using h
+  · have hw : (Dia.serve Dia.exCfg Dia.exDictNone [.ok Dia.exFrameMsg]
+        [.data (Dia.exFrame.take 7), .pending, .data (Dia.exFrame.drop 7)] [.accept 1, .pending, .accept 1]).written = Dia.exFrame := by
+      have := (Dia.C08_all_good Dia.exCfg Dia.exDictNone [Dia.exFrame] [Dia.exFrameMsg] [Dia.exFrameMsg]
+        [.data (Dia.exFrame.take 7), .pending, .data (Dia.exFrame.drop 7)] [.accept 1, .pending, .accept 1] rfl rfl
+        (fun i h1 h2 => by
+          have : i = 0 := by simp at h1; omega
+          subst this; exact Dia.exFrame_accepts)
+        (fun a ha => by simp at ha; subst ha; rw [Dia.exFrameMsg_enc])
+        (by simp [Dia.noEmpty, Dia.exFrame]) (by decide) (by intro e he; simp at he; rcases he with rfl | rfl | rfl <;> simp [Dia.WEv.good])).2.1
+      simp only [List.map_cons, List.map_nil] at this
+      rw [this]; simp [Dia.exFrameMsg_enc]
+    rw [hw]; simp [Dia.noEmpty, Dia.exFrame]
 
 end Dia.Cl
 
